@@ -152,7 +152,7 @@ def registry_rows(run, regfile) -> list:
     return rows
 
 
-def run_validations(run, rows: list[dict], plats: list[str], boards: list[str], origin: dict) -> list[dict]:
+def run_validations(run, rows: list[dict], plats: list[str], boards: list[str], origin: dict, reg: dict | None = None) -> list[dict]:
     if sorted(r["pi"] for r in rows) != list(range(1, len(plats) + 1)):
         raise MachineryError("RegistryGen did not emit one row per candidate platform")
     traces, chunk = [], 400
@@ -168,6 +168,13 @@ def run_validations(run, rows: list[dict], plats: list[str], boards: list[str], 
             n_accept += (b in acc)
         for k in range(0, len(evs), chunk):
             traces.append({"id": f"validate/{pi}/{k // chunk}", "p": p, "ev": evs[k:k + chunk]})
+    # every registered pair once more with the registry's own string objects (the loop above passes equal but distinct objects)
+    for p, bs in sorted((reg or {}).items()):
+        evs = [{"b": b, "out": pio_rec.validate_case(p, b, own=True)} for b in bs]
+        for b in bs:
+            run.count(("val-own", p, b), nontrivial=True)
+        for k in range(0, len(evs), chunk):
+            traces.append({"id": f"validate-own/{p}/{k // chunk}", "p": p, "ev": evs[k:k + chunk]})
     run.cov["validations"] = {"pairs": len(plats) * len(boards), "spec_accepts": n_accept, "candidate_platforms": len(plats),
                               "candidate_boards": len(boards)}
     run.sample({"validate": [plats[0], boards[0], traces[0]["ev"][0]["out"]], "near_miss_example": next(iter(origin.items()), None)})
@@ -325,7 +332,7 @@ def check(run) -> None:
     try:
         rows = registry_rows(run, regfile)
         registry_law(run, reg, *bg_reg.join())
-        vtraces = run_validations(run, rows, plats, boards, origin)
+        vtraces = run_validations(run, rows, plats, boards, origin, reg)
         bg_val = Background(validate_registry_traces, run, vtraces, regfile)      # validated by TLC while projects are written
         bgs.append(bg_val)
         project_half(run, reg, regfile, plats, boards, *bg_libs.join())
